@@ -25,9 +25,10 @@ const (
 	KAtomicRMW
 	KWait
 	KOther
+	KPoolPutDone // the object is in the pool now; the putter continues
 )
 
-var kindNames = [...]string{"pool.Get", "pool.Put", "Lock", "Unlock", "RLock", "RUnlock", "Once", "atomic.Load", "atomic.Store", "atomic.RMW", "Wait", "other"}
+var kindNames = [...]string{"pool.Get", "pool.Put", "Lock", "Unlock", "RLock", "RUnlock", "Once", "atomic.Load", "atomic.Store", "atomic.RMW", "Wait", "other", "pool.Put(done)"}
 
 func (k Kind) String() string {
 	if int(k) < len(kindNames) {
